@@ -24,6 +24,10 @@ SHORT = {
  "C16": "level check behind the cache answer of `read -h`", "C01e": "SYN branch guarded by `!sending` instead of the state", "C02e": "SYN with buffered data passes although a request is current", "C03e": "adapter ERROR frame no longer withdraws the START", "C04d": "retry counter reset after the request was handed to the queue", "C15e": "MM-vs-MS decision by own address instead of isMaster", "C07d": "24:00:ss accepted on write (time types)", "C08d": "unavailable conditional alternative ends the bucket scan", "C09d": "field index translation drops the name filter", "C12d": "stream flags no longer reset before a number", "C16d": "ACL lines append instead of replace", "C05c": "backslash not escaped in JSON strings", "C06c": "symmetric range check rejects the most negative raw value", "C10c": "single field claims its length in both parts", "C11c": "doubled ESC accepted by parseHexEscaped", "C13c": "prepared request counts as seen", "C14c": "RESETTED leaves m_arbitrationCheck set", "C17c": "front insertion resets m_pollOrder", "C18c": "topic match uses rfind", "C19c": "quote after separator inside quoted text reopens", "C16b": "HTTP user without secret keeps the user's levels", "C16c": None,
  "C17": "`setPollPriority` pushes back instead of pulling forward", "C17b": "`clear()` of any map resets the shared `g_lastPollOrder`",
  "C18": "blank runs inside quotes collapsed", "C18b": "leading-slash requirement of the HTTP target dropped",
+ "C02f": "response buffer not cleared before the repetition of a NAKed response", "C03f": "lock counter reloaded after a lost arbitration only if the request has retries left",
+ "C05e": "BCD high-nibble check off by one (0xA accepted in lower-order bytes)", "C06e": "reciprocal divisor formatted in single precision (4-byte types)",
+ "C07e": "24:00:ss accepted on write (3-byte time types, minutes-only check)", "C08e": "source-bit stripping only for lookups that include passive definitions",
+ "C10e": "IGN field skips the bit-layout bookkeeping of the numeric read path", "C15f": "MM-vs-MS decision after the ACK by own master address instead of isMaster",
  "C04e": "requests queued while there is already no signal are no longer drained", "C09e": "`checkId` matches a part on ANY equal suffix byte",
  "C11d": "inverse of the +5 mapping without the modulo-256 wrap (0x04 / 0xFF)", "C12e": "derive cache key takes min/max/inc from the base type: ranged template and plain type collide",
  "C13e": "exclusive `<N` loses its -1", "C14e": "RESETTED overwrites an arbitration result decoded earlier in the same chunk",
